@@ -182,6 +182,44 @@ fn adjacent_commands_given_nothing(case: &mut Case) {
             ),
         );
     }
+    // help behind a command name of the chain describes that command, also when it is not the
+    // first one on the line
+    let mut chain: Vec<Vec<u8>> = Vec::new();
+    let n = rng.range(2, 3);
+    let mut last = 0;
+    for _ in 0..n {
+        let (name, flag, id) = if rng.chance(1, 2) {
+            ("build", "--release", 10)
+        } else {
+            ("test", "--quiet", 20)
+        };
+        chain.push(name.as_bytes().to_vec());
+        last = id;
+        if rng.chance(1, 3) {
+            chain.push(flag.as_bytes().to_vec());
+        }
+    }
+    if chain.last().map_or(false, |w| w.starts_with(b"--")) {
+        chain.pop();
+    }
+    chain.push(if rng.chance(1, 2) { b"--help".to_vec() } else { b"-h".to_vec() });
+    let (out, _) = b.run(case, &chain, "help-after-later-command-of-a-chain");
+    let want = format!("D{}-descr", last);
+    let other = format!("D{}-descr", 30 - last);
+    let ok = matches!(&out, Outcome::Stdout { text, .. } if text.contains(&want) && !text.contains(&other));
+    if !ok && !matches!(out, Outcome::Panic(_) | Outcome::FuelExhausted) {
+        case.rep.violation(
+            &format!("help-describes-wrong-level:adjacent-chain:{}", out.class()),
+            "help-level",
+            case.index,
+            b.detail(
+                &chain,
+                "help-after-later-command-of-a-chain",
+                &format!("Stdout with marker {} and without {}", want, other),
+                &out,
+            ),
+        );
+    }
 }
 
 pub fn run_case(case: &mut Case) {
